@@ -362,8 +362,9 @@ func stratRandom(r *rand.Rand) *stratCase {
 	n := 1 + r.Intn(8)
 	c := &stratCase{Strategy: stratNames[r.Intn(len(stratNames))]}
 	sum := 0
-	grid := []float64{0, 0.1, 0.25, 0.25, 0.5, 0.5, 0.75, 0.9}
-	rates := []float64{0.01, 0.05, 0.1, 0.1, 0.25, 0.5}
+	// usage is "used / capacity" of the plugins' resources: an oversold node reports more than 1
+	grid := []float64{0, 0.1, 0.25, 0.25, 0.5, 0.5, 0.75, 0.9, 1, 1.6, 2.2, 3.5}
+	rates := []float64{0.01, 0.05, 0.1, 0.1, 0.25, 0.5, 1}
 	for i := 0; i < n; i++ {
 		nd := stratNode{Name: fmt.Sprintf("n%d", i), Count: r.Intn(7), Usage: grid[r.Intn(len(grid))], Rate: rates[r.Intn(len(rates))]}
 		switch k := r.Intn(10); {
